@@ -3,7 +3,7 @@ REPO ?= /repo
 SRC := $(REPO)/src
 B := /verif/build
 CC := gcc -std=gnu11
-SAN ?= -fsanitize=address,undefined -fno-sanitize-recover=undefined
+SAN ?= -fsanitize=address,undefined -fno-sanitize=shift-base -fno-sanitize-recover=undefined
 OPT ?= -O1
 CPPFLAGS := -DHAVE_CONFIG_H -D_POSIX_C_SOURCE=200809L -D_XOPEN_SOURCE=700 -D_DEFAULT_SOURCE \
 	-U_FORTIFY_SOURCE -D_FORTIFY_SOURCE=0 -I$(SRC) -I/verif/sim
@@ -22,7 +22,7 @@ WRAPFLAGS_D := $(WRAP_D:%=-Wl,--wrap=%)
 
 .PHONY: all build gen conf clean
 all: build
-build: gen $(B)/simd $(B)/vq $(B)/uidcoll.json conf
+build: gen $(B)/simd $(B)/vq $(B)/simp $(B)/uidcoll.json conf
 
 gen:
 	@mkdir -p $(B)/lib
@@ -45,6 +45,12 @@ $(B)/simd.o: /verif/sim/simd.c /verif/sim/simcommon.h /verif/sim/evmodel.h $(SRC
 
 $(B)/simd: $(B)/simd.o $(B)/evmodel.o $(B)/logger.o $(LIBOBJ)
 	@$(CC) $(CFLAGS) $(WRAPFLAGS_D) -o $@ $^ -lm
+
+$(B)/simp.o: /verif/sim/simp.c $(wildcard $(SRC)/*.h)
+	@$(CC) $(CPPFLAGS) $(CFLAGS) -c -o $@ $<
+
+$(B)/simp: $(B)/simp.o $(LIBOBJ)
+	@$(CC) $(CFLAGS) -o $@ $^ -lm
 
 # echsq as wire-byte producer (--dry-run), with a pinned clock
 $(B)/vq.o: /verif/sim/vq.c $(SRC)/echsq.c $(SRC)/echsq.yucc $(wildcard $(SRC)/*.h)
